@@ -4,6 +4,7 @@ import Tw.Proofs.ServerBrowseOrder
 import Tw.Proofs.ServerBrowseMerge
 import Tw.Proofs.ServerBrowseRepaired
 import Tw.Proofs.ServerBrowseEncode
+import Tw.Proofs.ServerBrowseLists
 import Tw.Gen.Browse
 
 /-!
@@ -28,6 +29,86 @@ theorem guards_exclude_shift_overflow :
 /-- `parse_response` returns a value or nothing for every datagram. -/
 theorem parseResponse_total (data : List UInt8) (site : String) : parseResponse data ≠ .panic site :=
   parseResponse_no_panic data site
+
+/-! ### The thirteen response kinds are each recognised (with any payload, any tokens) -/
+
+/-- `List5`, `List6`, `Info5`, `Info6`, `Info6Ddper`, `Info664`, `Info6Ex`, `Info6ExMore`, `Count`:
+the nine 14-byte headers -/
+theorem kinds_header6 (payload : List UInt8) :
+    parseResponse (bytesOf LIST_5 ++ payload) = .ok (some (.list5 (parseList5 payload.length payload))) ∧
+    parseResponse (bytesOf LIST_6 ++ payload) = .ok (some (.list6 (parseList6 payload.length payload))) ∧
+    parseResponse (bytesOf INFO_5 ++ payload) = .ok (some (.info .info5 payload)) ∧
+    parseResponse (bytesOf INFO_6 ++ payload) = .ok (some (.info .info6 payload)) ∧
+    parseResponse (bytesOf INFO_6_DDPER ++ payload) = .ok (some (.info .info6Ddper payload)) ∧
+    parseResponse (bytesOf INFO_6_64 ++ payload) = .ok (some (.info .info664 payload)) ∧
+    parseResponse (bytesOf INFO_6_EX ++ payload) = .ok (some (.info .info6Ex payload)) ∧
+    parseResponse (bytesOf INFO_6_EX_MORE ++ payload) = .ok (some (.info .info6ExMore payload)) ∧
+    parseResponse (bytesOf COUNT ++ payload) = .ok ((parseCount payload).map .count) :=
+  recognise_header6 payload
+
+/-- `List7`, `Info7`, `Count7`: `0x21`, our token, their token (any bytes), `ff ff ff ff`, the tag -/
+theorem kinds_header7 (a b c d e f g h : UInt8) (payload : List UInt8) :
+    parseResponse (0x21 :: a :: b :: c :: d :: e :: f :: g :: h :: (bytesOf (LIST_7.drop 9) ++ payload))
+      = .ok (some (.list7 [a, b, c, d] [e, f, g, h] (parseList6 payload.length payload))) ∧
+    parseResponse (0x21 :: a :: b :: c :: d :: e :: f :: g :: h :: (bytesOf (INFO_7.drop 9) ++ payload))
+      = .ok (some (.info7 [a, b, c, d] [e, f, g, h] payload)) ∧
+    parseResponse (0x21 :: a :: b :: c :: d :: e :: f :: g :: h :: (bytesOf (COUNT_7.drop 9) ++ payload))
+      = .ok ((parseCount payload).map (.count7 [a, b, c, d] [e, f, g, h])) :=
+  recognise_header7 a b c d e f g h payload
+
+/-- `Token7` -/
+theorem kind_token7 (a b c d : UInt8) (payload : List UInt8) :
+    parseResponse (0x04 :: 0 :: 0 :: a :: b :: c :: d :: 0x05 :: payload)
+      = .ok ((parseToken7 payload).map (.token7 [a, b, c, d])) :=
+  recognise_token7 a b c d payload
+
+/-! ### Master-server payloads: address lists, counts, tokens -/
+
+/-- A 0.5 list has one address per complete 6-byte record (a trailing partial record is dropped);
+each record is an IPv4 address and a little-endian port. The model's fuel always suffices. -/
+theorem list5_records (payload : List UInt8) :
+    (parseList5 payload.length payload).length = payload.length / 6 ∧
+    ∀ (fuel : Nat) (a b c d p0 p1 : UInt8) (rest : List UInt8),
+      parseList5 (fuel + 1) (a :: b :: c :: d :: p0 :: p1 :: rest)
+        = { v4 := true, ip := [a, b, c, d], port := p0.toNat + 256 * p1.toNat } :: parseList5 fuel rest :=
+  ⟨parseList5_length _ _ (Nat.div_le_self _ _), fun _ _ _ _ _ _ _ _ => rfl⟩
+
+/-- A 0.6 / 0.7 list has one address per complete 18-byte record: 16 address bytes and a big-endian
+port; an address with the IPv4-mapping prefix `00×10 ff ff` is handed out as IPv4. -/
+theorem list6_records (payload : List UInt8) :
+    (parseList6 payload.length payload).length = payload.length / 18 ∧
+    (∀ (fuel : Nat) (ip : List UInt8), ip.length = 16 → ∀ (p0 p1 : UInt8) (rest : List UInt8),
+      parseList6 (fuel + 1) (ip ++ p0 :: p1 :: rest) = unpackAddr6 ip p0 p1 :: parseList6 fuel rest) ∧
+    ∀ (ip : List UInt8) (p0 p1 : UInt8),
+      (unpackAddr6 ip p0 p1).port = 256 * p0.toNat + p1.toNat ∧
+      ((unpackAddr6 ip p0 p1).v4 = true ↔ ip.take 12 = bytesOf IPV4_MAPPING) ∧
+      (ip.take 12 = bytesOf IPV4_MAPPING → (unpackAddr6 ip p0 p1).ip = ip.drop 12) ∧
+      (ip.take 12 ≠ bytesOf IPV4_MAPPING → (unpackAddr6 ip p0 p1).ip = ip) :=
+  ⟨parseList6_length _ _ (Nat.div_le_self _ _), fun f ip h p0 p1 rest => parseList6_record f ip h p0 p1 rest,
+    unpackAddr6_spec⟩
+
+/-- `parse_count`: nothing for fewer than two bytes, else the big-endian `u16` of the first two;
+`parse_token7`: nothing for fewer than four bytes, else the first four. -/
+theorem count_and_token (bs : List UInt8) :
+    ((bs.length < 2 → parseCount bs = none) ∧
+      ∀ a b rest, bs = a :: b :: rest → parseCount bs = some (256 * a.toNat + b.toNat)) ∧
+    ((bs.length < 4 → parseToken7 bs = none) ∧
+      ∀ a b c d rest, bs = a :: b :: c :: d :: rest → parseToken7 bs = some [a, b, c, d]) :=
+  ⟨parseCount_spec bs, parseToken7_spec bs⟩
+
+/-- Tie: the protocol constants the recognition and the address decoding depend on (regenerated
+from the source; a changed tag or mapping prefix makes this stop checking). -/
+theorem tie_protocol_constants :
+    IPV4_MAPPING = [0, 0, 0, 0, 0, 0, 0, 0, 0, 0, 255, 255] ∧
+    LIST_5.drop 10 = [108, 105, 115, 116] ∧ LIST_6.drop 10 = [108, 105, 115, 50] ∧ COUNT.drop 10 = [115, 105, 122, 50] ∧
+    INFO_5.drop 10 = [105, 110, 102, 50] ∧ INFO_6.drop 10 = [105, 110, 102, 51] ∧
+    INFO_6_DDPER = [100, 112, 0, 0, 0, 0, 255, 255, 255, 255, 105, 110, 102, 51] ∧
+    INFO_6_64.drop 10 = [100, 116, 115, 102] ∧ INFO_6_EX.drop 10 = [105, 101, 120, 116] ∧
+    INFO_6_EX_MORE.drop 10 = [105, 101, 120, 43] ∧
+    TOKEN_7 = [4, 0, 0, 255, 255, 255, 255, 5] ∧
+    LIST_7.drop 13 = [108, 105, 115, 50] ∧ COUNT_7.drop 13 = [115, 105, 122, 50] ∧ INFO_7.drop 13 = [105, 110, 102, 51] ∧
+    LIST_5.take 10 = List.replicate 10 255 ∧ LIST_7.take 13 = 33 :: List.replicate 12 255 ∧
+    PACKETFLAG_CONNLESS = 64 := by decide
 
 /-- Every `Info*Response::parse` that yields a `PartialServerInfo` (dtsf, iext, iex+) — and the
 common first half of the others — returns a value or nothing for every payload. -/
@@ -255,6 +336,32 @@ only the concrete ones below. -/
 theorem roundtrip_family_parts (f : Family) (hwf : f.WellFormed) (henc : f.Encodable) (i : Nat) (hi : i < f.size) :
     parsePartial (f.kind i) (f.encodePart i) = .ok (some (f.part i)) :=
   f.parse_encodePart (by decide) (by decide) (by decide) hwf henc i hi
+
+/-- The executable checker (`representableB`, the one the `e` requests of the correspondence run use)
+is sound: whatever it accepts round-trips. -/
+theorem roundtrip_checked (k : InfoKind) (i : ServerInfo) (offset : Nat) (h : representableB k i offset = true) :
+    parsePartial k (encInfo k i offset) = .ok (some { info := i, received := maskFor k offset i.clients.length }) ∧
+    parseFull k (encInfo k i offset) = .ok (some { i with clients := sortClients i.clients }) := by
+  obtain ⟨hk, hh, hc, hs⟩ := representableB_sound h
+  exact ⟨roundtrip_normal k hk i offset hh hc hs, roundtrip_full k hk i offset hh hc hs⟩
+
+theorem roundtrip_checked_more (token : Int) (no : Nat) (cs : List ClientInfo)
+    (h : representableMoreB token no cs = true) :
+    parsePartial .info6ExMore (encMore token no cs)
+      = .ok (some { info := (moreHdr token).withClients cs, received := 1 <<< no }) := by
+  obtain ⟨ht, hlo, hhi, hc⟩ := representableMoreB_sound h
+  exact roundtrip_more token ht no hlo hhi cs hc
+
+/-- **General encodability**: every well-formed family whose header and clients pass the executable
+test is `Encodable`; hence for all of them the parts `Family.part i` of the merge theorems are what
+the parser returns for the family's datagrams. -/
+theorem roundtrip_family_checked (f : Family) (hwf : f.WellFormed) (h : f.representableB = true)
+    (i : Nat) (hi : i < f.size) :
+    parsePartial (f.kind i) (f.encodePart i) = .ok (some (f.part i)) :=
+  roundtrip_family_parts f hwf (f.encodable_of_representableB hwf h) i hi
+
+example : witnessEx.representableB = true ∧ witnessLegacy.representableB = true ∧ witnessEx3.representableB = true ∧
+    representableB .info7 witnessV7 0 = true := by decide
 
 -- non-vacuity: both concrete families are representable, and their encodings are byte for byte the
 -- payloads of `corpus/browse/finding-d10-merge-repeat.txt`
